@@ -134,7 +134,7 @@ class lateral_boundary(PseudoNetCDFFile):
             self.__memmap__['DATE']['BTIME'], self.NVARS)
         self.variables['ETFLAG'] = ConvertCAMxTime(
             self.__memmap__['DATE']['EDATE'],
-            self.__memmap__['DATE']['BTIME'], self.NVARS)
+            self.__memmap__['DATE']['ETIME'], self.NVARS)
 
         self.SDATE, self.STIME = self.variables['TFLAG'][0, 0, :]
 
